@@ -823,6 +823,358 @@ def floating(ctx, corr):
     return True
 
 
+# ------------------------------------------------------------------------------------------------------ floating, structured
+# Arithmetic constant expressions with floating operands as trees (the syntax of `drv_c07 feval`), so that the translated
+# folder (Gen.eval2 / Gen.evalDouble over elabA, run on the software FPU) and the floating Spec can be compared with the real
+# compiler bit for bit.  Literal leaves carry their spelling and the 80-bit long double the tokenizer holds for it.
+
+from . import c07_fpbits as fpb
+from fractions import Fraction
+
+FTYS = ['f32', 'f64', 'f80']
+FCNAME = {'f32': 'float', 'f64': 'double', 'f80': 'long double'}
+FSUFFIX = {'f32': 'f', 'f64': '', 'f80': 'L'}
+FDEC = ['0.1', '0.5', '0.7', '1.5', '2.5', '2.9', '3.0', '0.3', '0.0', '1.0', '2.0', '1e10', '123456789.0', '16777217.0', '1e-46', '1e300',
+        '1e40', '4294967296.0', '9223372036854775808.0', '1.8e19', '18446744073709551615.0', '1e-320', '3.4028235e38', '0.999999999', '7.99',
+        '255.5', '65535.9', '2147483647.5', '4294967295.5', '9007199254740993.0', '1e19', '1e-5']
+
+
+def is_f(t): return t in FTYS
+
+
+def acname(t): return FCNAME[t] if is_f(t) else CNAME[t]
+
+
+def gen_flit(rng):
+    t = rng.choice(['f32', 'f64', 'f64', 'f80'])
+    if rng.random() < 0.6:
+        body = rng.choice(FDEC)
+    else:
+        p = {'f32': 24, 'f64': 53, 'f80': 64}[t]
+        nb = rng.choice([1, 4, p - 1, p, p + 3])
+        frac = rng.getrandbits(4 * ((nb + 3) // 4))
+        ex = rng.choice([0, 0, 1, -1, 3, 10, 23, 24, 31, 32, 52, 53, 62, 63, 64, -10, -30, rng.randint(-60, 70)])
+        if rng.random() < 0.06:
+            ex = rng.choice({'f32': [127, -126, -140, -149], 'f64': [1023, -1022, -1060, 127, -149], 'f80': [16383, -16382, 1023, -1074]}[t])
+        body = f'0x1.{frac:x}p{ex}' if nb > 1 else f'0x1p{ex}'
+    x = fpb.frac_of(body)
+    return ('flit', t, fpb.literal_fval(x, t), body + FSUFFIX[t])
+
+
+def atype(e):
+    k = e[0]
+    if k == 'lit': return e[1]
+    if k == 'flit': return e[1]
+    if k == 'un':
+        if e[1] == 'lognot': return 'i32'
+        t = atype(e[2])
+        return t if is_f(t) else promote(t)
+    if k == 'bin':
+        ta, tb = atype(e[2]), atype(e[3])
+        if e[1] in ('shl', 'shr'): return ta if is_f(ta) else promote(ta)
+        if e[1] in CMP: return 'i32'
+        return ausual(ta, tb)
+    if k in ('land', 'lor'): return 'i32'
+    if k == 'cond': return ausual(atype(e[2]), atype(e[3]))
+    if k == 'cast': return e[1]
+    raise ValueError(k)
+
+
+def ausual(a, b):
+    for t in ('f80', 'f64', 'f32'):
+        if a == t or b == t:
+            return t
+    return common(a, b)
+
+
+def asexpr(e):
+    k = e[0]
+    if k == 'lit': return f'(lit {e[1]} {e[2]})'
+    if k == 'flit': return f'(flit {e[1]} {e[2]:020x})'
+    if k == 'un': return f'(un {e[1]} {asexpr(e[2])})'
+    if k == 'bin': return f'(bin {e[1]} {asexpr(e[2])} {asexpr(e[3])})'
+    if k in ('land', 'lor'): return f'({k} {asexpr(e[1])} {asexpr(e[2])})'
+    if k == 'cond': return f'(cond {asexpr(e[1])} {asexpr(e[2])} {asexpr(e[3])})'
+    if k == 'cast': return f'(cast {e[1]} {asexpr(e[2])})'
+    raise ValueError(k)
+
+
+def alits(e, out):
+    if e[0] in ('lit', 'flit'):
+        out.append(e)
+    for c in e[1:]:
+        if isinstance(c, tuple):
+            alits(c, out)
+    return out
+
+
+def arender(e, mode, names=None):
+    k = e[0]
+    if k in ('lit', 'flit'):
+        return names[id(e)] if mode == 'rt' else e[3]
+    if k == 'un': return f'({CUN[e[1]]} {arender(e[2], mode, names)})'
+    if k == 'bin': return f'({arender(e[2], mode, names)} {COPS[e[1]]} {arender(e[3], mode, names)})'
+    if k == 'land': return f'({arender(e[1], mode, names)} && {arender(e[2], mode, names)})'
+    if k == 'lor': return f'({arender(e[1], mode, names)} || {arender(e[2], mode, names)})'
+    if k == 'cond': return f'({arender(e[1], mode, names)} ? {arender(e[2], mode, names)} : {arender(e[3], mode, names)})'
+    if k == 'cast': return f'(({acname(e[1])}){arender(e[2], mode, names)})'
+    raise ValueError(k)
+
+
+def has_float(e):
+    return e[0] == 'flit' or (e[0] == 'cast' and is_f(e[1])) or any(has_float(c) for c in e[1:] if isinstance(c, tuple))
+
+
+def gen_aexpr(rng, d):
+    """a random arithmetic constant expression with floating operands, depth <= d (whether it has a C11 value is decided by the Spec)"""
+    if d <= 1 or rng.random() < 0.15:
+        return gen_flit(rng) if rng.random() < 0.7 else gen_lit(rng, small=rng.random() < 0.5)
+    r = rng.random()
+    if r < 0.42:
+        a, b = gen_aexpr(rng, d - 1), gen_aexpr(rng, d - 1)
+        if is_f(atype(a)) or is_f(atype(b)):
+            op = rng.choice(['add', 'sub', 'mul', 'div'])
+        else:
+            op = rng.choice(['add', 'sub', 'mul', 'band', 'shr'])
+        return ('bin', op, a, b)
+    if r < 0.55:
+        return ('bin', rng.choice(CMP), gen_aexpr(rng, d - 1), gen_aexpr(rng, d - 1))
+    if r < 0.64:
+        a = gen_aexpr(rng, d - 1)
+        return ('un', rng.choice(['neg', 'neg', 'lognot', 'plus'] if is_f(atype(a)) else ['neg', 'bitnot', 'lognot', 'plus']), a)
+    if r < 0.86:
+        t = rng.choice(FTYS + FTYS + ['i32', 'i64', 'u64', 'u32', 'u8', 'i8', 'i16', 'u16', 'bool'])
+        return ('cast', t, gen_aexpr(rng, d - 1))
+    if r < 0.92:
+        return (rng.choice(['land', 'lor']), gen_aexpr(rng, d - 1), gen_aexpr(rng, d - 1))
+    return ('cond', gen_aexpr(rng, d - 1), gen_aexpr(rng, d - 1), gen_aexpr(rng, d - 1))
+
+
+def FL(text):
+    low = text.lower()
+    t = 'f32' if low.endswith('f') else 'f80' if low.endswith('l') else 'f64'
+    body = text[:-1] if t != 'f64' else text
+    return ('flit', t, fpb.literal_fval(fpb.frac_of(body), t), text)
+
+
+def float_battery():
+    """deterministic: every conversion pair on boundary values, every operator at every floating type"""
+    out = []
+    vals = ['0.0', '0.5', '2.9', '255.5', '65535.9', '2147483647.5', '4294967295.5', '16777217.0', '9007199254740993.0',
+            '9223372036854775807.0', '9223372036854775808.0', '1.8e19', '1e-46', '3.4028235e38', '1e300', '0.1']
+    for v in vals:
+        for sfx in ('f', '', 'L'):
+            x = FL(v + sfx)
+            for t in FTYS + ['i8', 'u8', 'i16', 'u16', 'i32', 'u32', 'i64', 'u64', 'bool']:
+                out.append(('cast', t, x))
+                out.append(('cast', t, ('un', 'neg', x)))
+    ints = [L(0), L(1), L(16777217), L(2147483647), ('un', 'neg', L(1)), L(4294967295, 'u32'), L(9223372036854775807, 'i64'),
+            L(18446744073709551615, 'u64'), L(9223372036854775809, 'u64'), L(9007199254740993, 'i64'), ('cast', 'i8', ('un', 'neg', L(5))),
+            ('cast', 'u16', L(65535)), ('cast', 'bool', L(7))]
+    for i in ints:
+        for t in FTYS:
+            out.append(('cast', t, i))
+            out.append(('bin', 'add', i, FL('0.0' + FSUFFIX[t])))
+    pairs = [('0.1', '0.2'), ('1.0', '3.0'), ('16777216.0', '1.0'), ('1e300', '1e300'), ('1e-300', '1e-300'), ('0.0', '0.0'), ('1.0', '0.0'),
+             ('3.4028235e38', '3.4028235e38'), ('1e-40', '3.0'), ('0.5', '0.7'), ('2.5', '2.5')]
+    for a, b in pairs:
+        for sa in ('f', '', 'L'):
+            for sb in ('f', '', 'L'):
+                for op in ('add', 'sub', 'mul', 'div', 'eq', 'ne', 'lt', 'le', 'gt', 'ge'):
+                    out.append(('bin', op, FL(a + sa), FL(b + sb)))
+    for v in ('0.0', '0.5', '1e-46', '1e-320'):
+        for sfx in ('f', '', 'L'):
+            x = FL(v + sfx)
+            out += [('un', 'lognot', x), ('un', 'lognot', ('un', 'neg', x)), ('land', x, L(1)), ('lor', x, L(0)), ('cond', x, L(11), L(22)),
+                    ('cond', x, FL('1.5'), L(2)), ('cast', 'bool', x), ('cond', L(1), x, L(2)), ('un', 'plus', x), ('un', 'neg', x)]
+    return out
+
+
+def obj_types(rng, e):
+    t = atype(e)
+    base = ['f32', 'f64', 'f80', 'i64']
+    extra = [rng.choice(['u64', 'i32', 'u32', 'u8', 'i8', 'u16', 'i16', 'bool'])]
+    return base + extra if is_f(t) else ['i64', 'f64', rng.choice(['f32', 'f80'])] + extra
+
+
+def nbytes(t): return {'f32': 4, 'f64': 8, 'f80': 10}[t] if is_f(t) else SIZE[t]
+
+
+def parse_fields(line):
+    return dict(w.split('=', 1) for w in line.split())
+
+
+def spec_bits(val, t):
+    """hex of the object of type t holding the Spec value `val` (int:<n> | f32:.. | f64:.. | f80:..), or None"""
+    if val == 'none':
+        return None
+    k, v = val.split(':')
+    if k == 'int':
+        return format(int(v) % (1 << (8 * SIZE[t])), f'0{2 * SIZE[t]}x')
+    return v
+
+
+def is_nan_hex(h, t):
+    if not is_f(t):
+        return False
+    return fpb.decode(int(h, 16), t)[0] == 'nan'
+
+
+def floating_model(ctx, corr):
+    """structured floating leg: constant-context bits = model bits (tie) = run-time bits (property) = Spec = gcc (oracle)"""
+    rng = ctx.rng
+    batt = float_battery()
+    if not ctx.thorough:
+        batt = rng.sample(batt, 200)
+    n = 200 if not ctx.thorough else 5000
+    exprs = batt + [gen_aexpr(rng, rng.choice([2, 3, 3, 4, 4, 5])) for _ in range(n)]
+    exprs = [e for e in exprs if has_float(e)]
+    B = 120
+    for b0 in range(0, len(exprs), B):
+        if not float_batch(ctx, corr, [(b0 + i, e) for i, e in enumerate(exprs[b0:b0 + B])], f'fm{b0}'):
+            return False
+    return True
+
+
+def float_batch(ctx, corr, cases, tag):
+    rng = ctx.rng
+    # 1. Spec and model through the driver
+    lines, index = [], []
+    plan = []
+    for k, e in cases:
+        ots = obj_types(rng, e)
+        plan.append((k, e, ots))
+        lines.append('feval ' + asexpr(e)); index.append((k, 'self', None))
+        for t in ots:
+            lines.append('feval ' + asexpr(('cast', t, e))); index.append((k, 'spec', t))
+            lines.append(f'fgvar {t} ' + asexpr(e)); index.append((k, 'gvar', t))
+    out = run_model(ctx, corr, '\n'.join(lines) + '\n').splitlines()
+    if len(out) != len(lines):
+        raise RuntimeError(f'drv_c07 answered {len(out)} lines for {len(lines)} floating operations')
+    drv = {}
+    for (k, what, t), line in zip(index, out):
+        drv[(k, what, t)] = line
+    good = []
+    for k, e, ots in plan:
+        f = parse_fields(drv[(k, 'self', None)])
+        if f.get('ty') != atype(e):
+            raise RuntimeError(f'python typing of arithmetic expressions disagrees with Spec/ConstFSpec.lean on {asexpr(e)}: {atype(e)} vs {drv[(k, "self", None)]}')
+        if f['spec'] == 'none':
+            corr.count('skipped_ub')              # no C11 value (out-of-range conversion, integer overflow, …): not a valid probe
+            continue
+        if f['const'] != 'true':
+            corr.disagreements.append({'kind': 'is_const_expr (model) rejects an arithmetic constant expression', 'input': arender(e, 'const'),
+                                       'sexpr': asexpr(e), 'model': drv[(k, 'self', None)]})
+            return False
+        ots2 = []
+        for t in ots:
+            sp = parse_fields(drv[(k, 'spec', t)])['spec']
+            if sp == 'none':
+                corr.count('skipped_ub')
+                continue
+            if t == 'u64' and is_f(atype(e)) and int(sp.split(':')[1]) >= (1 << 63):
+                # uncast floating initializer of an unsigned long object, value >= 2^63: folded through int64_t before fix 6a09034
+                corr.count('float-init-u64-above-2^63')
+            ots2.append(t)
+        if ots2:
+            good.append((k, e, ots2))
+    if not good:
+        return True
+    # 2. the program
+    top = ['int printf(const char *, ...);', 'void *memcpy(void *, const void *, unsigned long);',
+           'static void pb(int k, const char *c, const void *p, int n) { unsigned char b[16] = {0}; memcpy(b, p, n); '
+           'printf("%d %s ", k, c); for (int i = n - 1; i >= 0; i--) printf("%02x", b[i]); printf("\\n"); }']
+    body = []
+    for k, e, ots in good:
+        lits = alits(e, [])
+        names, decls = {}, []
+        for j, lit in enumerate(lits):
+            names[id(lit)] = f'w{j}'
+            decls.append(f'volatile {acname(lit[1])} w{j} = {lit[3]};')
+        c = arender(e, 'const')
+        rt = arender(e, 'rt', names)
+        for t in ots:
+            T = acname(t)
+            top.append(f'static {T} fc_{k}_{t} = {c};')
+            top.append(f'static {T} fr_{k}_{t}(void) {{ {" ".join(decls)} return {rt}; }}')
+            body.append(f'  pb({k}, "c_{t}", &fc_{k}_{t}, {nbytes(t)}); {{ {T} r = fr_{k}_{t}(); pb({k}, "r_{t}", &r, {nbytes(t)}); }}')
+    src = '\n'.join(top) + '\nint main(void) {\n' + '\n'.join(body) + '\n  return 0;\n}\n'
+    path = os.path.join(ctx.scratch, f'c07_{tag}.c')
+    open(path, 'w').write(src)
+
+    def run(cc, exe):
+        rc, o, e = sh([cc, '-w', '-o', exe, path] if cc == 'gcc' else [cc, '-o', exe, path], timeout=600)
+        if rc != 0:
+            return None, (e or o)[-800:]
+        rc, o, e = sh([exe], timeout=120)
+        if rc != 0:
+            return None, f'exit {rc}'
+        d = {}
+        for line in o.splitlines():
+            w = line.split()
+            if len(w) == 3:
+                d[(int(w[0]), w[1])] = w[2]
+        return d, ''
+    got, err = run(ctx.cc, os.path.join(ctx.scratch, f'c07_{tag}.chibicc'))
+    ref, gerr = run('gcc', os.path.join(ctx.scratch, f'c07_{tag}.gcc'))
+    if ref is None:
+        if len(good) == 1:
+            corr.count('gcc-rejects')
+            return True
+        h = len(good) // 2
+        return (float_batch(ctx, corr, [(k, e) for k, e, _ in good[:h]], tag + 'g') and
+                float_batch(ctx, corr, [(k, e) for k, e, _ in good[h:]], tag + 'h'))
+    if got is None:
+        if len(good) > 1:
+            h = len(good) // 2
+            return (float_batch(ctx, corr, [(k, e) for k, e, _ in good[:h]], tag + 'a') and
+                    float_batch(ctx, corr, [(k, e) for k, e, _ in good[h:]], tag + 'b'))
+        k, e, ots = good[0]
+        corr.violations.append({'what': 'chibicc rejects (or miscompiles to a crashing program) a program of valid arithmetic constant expressions that gcc accepts',
+                                'input': arender(e, 'const'), 'sexpr': asexpr(e), 'expected': 'compiles and runs', 'got': err,
+                                'replay_kind': 'fmodel', 'replay_fexpr': json.dumps(e)})
+        return False
+    for k, e, ots in good:
+        corr.evaluations += 1
+        corr.nontrivial.add('fm:' + asexpr(e))
+        corr.count('fm-type-' + atype(e))
+        for t in ots:
+            want = spec_bits(parse_fields(drv[(k, 'spec', t)])['spec'], t)
+            model = drv[(k, 'gvar', t)]
+            gc, gr = ref.get((k, 'c_' + t)), ref.get((k, 'r_' + t))
+            cc_, cr = got.get((k, 'c_' + t)), got.get((k, 'r_' + t))
+            corr.count('fm-obj-' + t)
+            nan = is_nan_hex(want, t)
+            if gc != gr:
+                corr.count('skipped_ub')           # gcc folds differently from its own run time (NaN sign, excess precision): not a valid probe
+                continue
+            if gr != want and not (nan and is_nan_hex(gr, t)):
+                corr.disagreements.append({'kind': 'floating Spec (over the software FPU) disagrees with gcc (spec, SoftFp or harness bug)',
+                                           'input': arender(e, 'const'), 'object': t, 'spec': want, 'gcc': gr, 'sexpr': asexpr(e)})
+                return False
+            if model != cc_ and not (nan and is_nan_hex(cc_, t) and is_nan_hex(model, t)):
+                corr.disagreements.append({'kind': 'model (Gen.evalDouble / Gen.eval2 over elabA, software FPU) differs from what chibicc folded',
+                                           'input': arender(e, 'const'), 'object': t, 'model': model, 'impl': cc_, 'sexpr': asexpr(e)})
+                if cc_ != cr:
+                    corr.violations.append(fviolation(e, t, cr, cc_, gc))
+                return False
+            if cc_ != cr:
+                corr.violations.append(fviolation(e, t, cr, cc_, gc))
+                return False
+            elif cc_ != gc:
+                corr.count('float-const-equals-runtime-but-not-gcc')
+    k, e, ots = good[-1]
+    corr.sample({'floating_expression': arender(e, 'const'), 'type': atype(e), 'objects': ots})
+    return True
+
+
+def fviolation(e, t, cr, cc_, gc):
+    return {'what': f'arithmetic constant expression with floating operands: the value folded into a static {acname(t)} object differs from '
+                    'run-time evaluation of the same expression', 'input': f'static {acname(t)} x = {arender(e, "const")};',
+            'expected': f'run time {cr} (gcc {gc})', 'got': cc_, 'sexpr': asexpr(e), 'object': t, 'replay_kind': 'fmodel',
+            'replay_fexpr': json.dumps(e), 'replay_obj': t}
+
+
 # ------------------------------------------------------------------------------------------------------ corpus
 
 def corpus(ctx, corr):
@@ -914,6 +1266,8 @@ def correspond(ctx, corr):
     corr.sample({'expression': render(exprs[len(batt)], 'const'), 'value': ev(exprs[len(batt)])})
     if not floating(ctx, corr):
         return
+    if not floating_model(ctx, corr):
+        return
     consumers_tie(ctx, corr)
 
 
@@ -921,12 +1275,17 @@ def consumers_tie(ctx, corr):
     """the consumer table of the generated model names every store of a folded constant; sanity: the driver knows them all"""
     txt = open(os.path.join(ctx.lean_dir, 'ChibiVerif/Gen/ConstEvalGen.lean')).read()
     cons = re.findall(r'^\s*\("(\w+)", "([^"]+)", (\d+), (true|false)\)', txt, re.M)
-    lines = ''.join(f'store {f} {d} 4294967301\n' for f, d, b, s in cons)
+    # _Alignas(n) / aligned(n) validate the int64_t before it is narrowed: 4294967301 is diagnosed, 4096 is kept
+    ALIGN = {('declspec', 'align'), ('attribute_list', 'ty->align')}
+    lines = ''.join(f'store {f} {d} 4294967301\n' for f, d, b, s in cons) + ''.join(f'store {f} {d} 4096\n' for f, d in sorted(ALIGN))
     out = run_model(ctx, corr, lines).splitlines()
     for (f, d, b, s), o in zip(cons, out):
-        want = 5 if b == '32' else 4294967301
+        want = 'diag:alignment_must_be_a_power_of_two_no_larger_than_2^28' if (f, d) in ALIGN else 5 if b == '32' else 4294967301
         if o != str(want):
             corr.disagreements.append({'kind': 'consumer conversion', 'input': f'{f} {d}', 'model': o, 'impl': want})
+    for (f, d), o in zip(sorted(ALIGN), out[len(cons):]):
+        if o != '4096':
+            corr.disagreements.append({'kind': 'consumer conversion', 'input': f'{f} {d} 4096', 'model': o, 'impl': 4096})
     corr.extra['consumers'] = [f'{f}:{d}:{"i" if s == "true" else "u"}{b}' for f, d, b, s in cons]
 
 
